@@ -714,6 +714,213 @@ def rk_convergence_test(cls):
             "ratio_expected_for_stated_order": 16 if cls == "RungeKutta4" else 32}
 
 
+# ------------------------------------------------------------------ one Hamiltonian object, several circuit(dt[, t]) calls
+def embed_np(M, targets, n):
+    """numpy reference of Base/Mat.embed: the matrix M on the qubits `targets` (in that order) of n qubits"""
+    k = len(targets)
+    M = np.asarray(M, dtype=complex).reshape((2,) * (2 * k))
+    rest = [q for q in range(n) if q not in targets]
+    full = np.zeros((2,) * (2 * n), dtype=complex)
+    # build by tensoring M with identities and permuting axes
+    T = np.tensordot(M, np.eye(2 ** len(rest)).reshape((2,) * (2 * len(rest))), axes=0) if rest else M
+    order_out = list(targets) + rest
+    row_axes = list(range(k)) + list(range(2 * k, 2 * k + len(rest)))
+    col_axes = list(range(k, 2 * k)) + list(range(2 * k + len(rest), 2 * k + 2 * len(rest)))
+    T = np.transpose(T, row_axes + col_axes)          # (rows of targets, rows of rest, cols of targets, cols of rest)
+    perm = [order_out.index(q) for q in range(n)]
+    T = np.transpose(T, perm + [n + p_ for p_ in perm])
+    return T.reshape(2 ** n, 2 ** n)
+
+
+def run_circuit_histories(run, rng):
+    """ONE SymbolicHamiltonian / SymbolicAdiabaticHamiltonian object asked for Trotter steps several times (same t with
+    different dt, same dt with different t, repeats): every call is compared with the model -- the (merged term, dt/2)
+    sequence handed to expgate exactly (spy), and the unitary of the RETURNED circuit with the product of the
+    exponentials of the model's merged groups for THIS call's dt and t (tolerance test)."""
+    import scipy.linalg
+    from qibo import hamiltonians
+    from qibo.hamiltonians import adiabatic as AD, terms as T
+    from qibo.symbols import X, Y, Z
+    items, meta = [], {}
+    rec = []
+    orig = T.HamiltonianTerm.expgate
+
+    def spy(self, x):
+        rec.append((tuple(self.target_qubits), np.asarray(self.matrix).copy(), x))
+        return orig(self, x)
+
+    def reference_unitary(groups, weight, n, x):
+        """groups: list of lists of terms; weight(term) -> scalar; product over groups forward then backward of exp(-i x G)"""
+        Gs = [sum(weight(t) * embed_np(np.asarray(t.matrix), list(t.target_qubits), n) for t in g) for g in groups]
+        U = np.eye(2 ** n, dtype=complex)
+        for G in Gs + Gs[::-1]:
+            U = scipy.linalg.expm(-1j * x * G) @ U
+        return U
+
+    T.HamiltonianTerm.expgate = spy
+    try:
+        count = 4 if run.tier == "quick" else 24
+        for k in range(count):
+            n = rng.choice([2, 3])
+            adiabatic = k % 2 == 0
+            mk = lambda: rand_pauli_form(rng, n)
+            if adiabatic:
+                h0 = hamiltonians.SymbolicHamiltonian(ast_sympy(mk()), nqubits=n)
+                h1 = hamiltonians.SymbolicHamiltonian(ast_sympy(mk()), nqubits=n)
+                if h0.nqubits != h1.nqubits:
+                    continue
+                ham = AD.SymbolicAdiabaticHamiltonian(h0, h1)
+                power = rng.choice([1, 2])
+                ham.schedule = (lambda p_: (lambda x: x ** p_))(power)
+                ham.total_time = 2.0
+                ts = [rng.choice([0.0, 0.5, 1.0, 1.5, 2.0]) for _ in range(2)]
+                dts = [rng.choice([0.1, 0.05, 0.25, 0.3]) for _ in range(2)]
+                # same t / different dt, same dt / different t, and a repeat
+                calls = [(dts[0], ts[0]), (dts[1], ts[0]), (dts[1], ts[1]), (dts[0], ts[1]), (dts[0], ts[0]), (dts[0] / 2, ts[0])]
+            else:
+                ham = hamiltonians.SymbolicHamiltonian(ast_sympy(mk()), nqubits=n)
+                dts = [rng.choice([0.1, 0.05, 0.25, 0.3]) for _ in range(2)]
+                calls = [(dts[0], None), (dts[1], None), (dts[0], None), (dts[0] / 2, None)]
+            for j, (dt, t) in enumerate(calls):
+                del rec[:]
+                circ = ham.circuit(dt, t=t) if adiabatic else ham.circuit(dt)
+                seq = list(rec)
+                if adiabatic:
+                    sv = (Fraction(t) / Fraction(2)) ** power if t != 0 else Fraction(0)
+                    wt = lambda term, _s=sv: float(1 - _s) if term.hamiltonian is h0 else float(_s)
+                    groups = [list(g) for g in ham.groups]
+                    den = sv.denominator
+                    pres = [(tuple(tm.target_qubits), (den - sv.numerator if owner is h0 else sv.numerator) * np.asarray(tm.matrix))
+                            for owner, gs in ((h0, ham.groups0), (h1, ham.groups1)) for g in gs for tm in g]
+                else:
+                    wt = lambda term: 1.0
+                    groups = [list(g) for g in T.TermGroup.from_terms(ham.terms)]
+                    del rec[:]
+                    den = 1
+                    pres = [(tuple(tm.target_qubits), np.asarray(tm.matrix)) for tm in ham.terms]
+                desc = {"mechanism": "circuit-history", "object": "SymbolicAdiabaticHamiltonian" if adiabatic else "SymbolicHamiltonian",
+                        "call_index": j, "calls_dt_t": calls, "dt": dt, "t": t, "nqubits": n}
+                run.case(["circuit-history", k, j, dt, t], nontrivial=True)
+                if k < 2 and j == 1:
+                    run.sample({"kind": "several circuit(dt, t) calls on one object", **desc})
+                # (a) tolerance test on the RETURNED circuit: must be the step for THIS dt and t
+                U = circ.unitary()
+                Uref = reference_unitary(groups, wt, n, dt / 2.0)
+                err = float(np.abs(U - Uref).max())
+                if err > 1e-9:
+                    run.find(f"circuit_history:{desc['object']}:call{j}:dt={dt}:t={t}",
+                             f"{desc['object']}.circuit called several times on one object: the circuit returned by call {j} (dt={dt}, t={t}) is not the "
+                             f"Trotter step for these arguments (max |U - U_ref| = {err:.3e}; earlier calls: {calls[:j]})", {**desc, "max_abs_err": err})
+                # (b) exact: the (merged term, x) sequence handed to expgate by this call vs the model
+                okx = all(x == dt / 2.0 for _, _, x in seq) and len(seq) == 2 * len(groups)
+                try:
+                    S = "Some [" + ";".join(f"zterm [{';'.join(str(q) for q in qs)}] {cmat(den * M)}" for qs, M, _ in seq) + "]"
+                    lab = f"ch{k}:{j}"
+                    items.append((lab, f"{'true' if okx else 'false'} && match circuit_terms {terms_coq(pres)}, {S} with Some a, Some b => list_eqb hterm_eqb a b | _, _ => false end"))
+                    meta[lab] = {**desc, "expgate_calls": len(seq), "expected_calls": 2 * len(groups), "x_values": sorted({x for _, _, x in seq})}
+                except Inexact as e:
+                    run.find(f"circuit_history:{desc['object']}:call{j}:dt={dt}:t={t}", f"merged term of call {j} is not den * (model term): {e}", desc)
+    finally:
+        T.HamiltonianTerm.expgate = orig
+    res = {}
+    for k0 in range(0, len(items), 200):
+        r, out = run.coq_bools(f"C16_circuit_hist_{k0 // 200}.v", HEADER, items[k0:k0 + 200], timeout=900)
+        if r is None:
+            run.find(f"coq:C16_circuit_hist_{k0 // 200}", "generated file does not compile", {"log": out[-1500:]}, concrete=False)
+        else:
+            res.update(r)
+    for lab, _ in items:
+        if lab in res and not res[lab]:
+            m = meta[lab]
+            run.find(f"circuit_history_terms:{m['object']}:call{m['call_index']}:dt={m['dt']}:t={m['t']}",
+                     f"{m['object']}.circuit call {m['call_index']} on a re-used object did not exponentiate the model's merged terms with x = dt/2 "
+                     f"({m['expgate_calls']} expgate calls, expected {m['expected_calls']}; x values {m['x_values']})", m)
+
+
+# ------------------------------------------------------------------ Hamiltonian.exp before / after the spectrum was computed
+def rand_hermitian(rng, n, cplx):
+    N = 2 ** n
+    A = np.array([[complex(rng.randrange(-3, 4), rng.randrange(-3, 4) if cplx else 0) for _ in range(N)] for _ in range(N)])
+    return (A + A.conj().T) / 2.0 * 2.0 / 2.0
+
+
+def run_exp_histories(run, rng):
+    """Hamiltonian.exp(a) against scipy's expm of the same matrix, for real AND complex Hermitian matrices, on a fresh
+    object and again after eigenvalues()/eigenvectors()/ground_state() filled the spectrum cache (the eigendecomposition
+    branch of calculate_matrix_exp); the 'exp' solver (StateEvolution, dense AdiabaticEvolution with a Y mixer and the
+    default initial state = ground state of h0) likewise.  Tolerance tests (1e-10)."""
+    import scipy.linalg
+    from qibo import hamiltonians, models
+    from qibo.symbols import X, Y, Z
+    worst = {}
+    count = 8 if run.tier == "quick" else 60
+    for k in range(count):
+        n = rng.choice([1, 2])
+        cplx = k % 2 == 0
+        if k % 4 == 3:
+            hs = hamiltonians.SymbolicHamiltonian(rng.randrange(1, 4) * Y(0) * (Z(1) if n == 2 else 1) + rng.randrange(1, 3) * X(0) + (Y(1) if n == 2 else 0), nqubits=n)
+            M = np.array(hs.matrix)
+            cplx = True
+        else:
+            M = rand_hermitian(rng, n, cplx)
+        for prep in ("fresh", "eigenvalues", "eigenvectors", "ground_state"):
+            h = hamiltonians.Hamiltonian(n, M.copy())
+            if prep != "fresh":
+                getattr(h, prep)()
+            for a in (rng.choice([0.1, 0.37, 1.0]), rng.choice([0.05, 2.0])):
+                got = np.asarray(h.exp(a))
+                ref = scipy.linalg.expm(-1j * a * M)
+                err = float(np.abs(got - ref).max())
+                key = (prep, "complex" if cplx else "real")
+                worst[key] = max(worst.get(key, 0.0), err)
+                run.case(["matrix_exp", k, prep, a, cplx], nontrivial=True)
+                if err > 1e-10:
+                    run.find(f"matrix_exp:{prep}:{'complex' if cplx else 'real'}:n={n}",
+                             f"Hamiltonian.exp(a) after {prep} differs from expm(-i a H) for a {'complex' if cplx else 'real'} Hermitian H (max abs err {err:.3e})",
+                             {"mechanism": "matrix_exp", "prep": prep, "a": a, "matrix": [[[float(z.real), float(z.imag)] for z in r] for r in M], "max_abs_err": err})
+        # exp solver after the spectrum was computed
+        h = hamiltonians.Hamiltonian(n, M.copy())
+        psi0 = np.asarray(h.ground_state()).copy() if k % 2 else None
+        if psi0 is None:
+            h.eigenvectors()
+            psi0 = np.zeros(2 ** n, dtype=complex)
+            psi0[0] = 1
+        dt, m = rng.choice([0.1, 0.25]), rng.randrange(1, 5)
+        out = models.StateEvolution(h, dt=dt)(final_time=m * dt, initial_state=psi0.copy())
+        ref = np.linalg.matrix_power(scipy.linalg.expm(-1j * dt * M), m) @ psi0
+        err = float(np.abs(out - ref).max())
+        worst[("evolve", "complex" if cplx else "real")] = max(worst.get(("evolve", "complex" if cplx else "real"), 0.0), err)
+        run.case(["exp_evolve_after_spectrum", k, dt, m], nontrivial=True)
+        if err > 1e-10:
+            run.find(f"exp_evolution_after_spectrum:{'complex' if cplx else 'real'}:n={n}",
+                     f"StateEvolution('exp') on a Hamiltonian whose eigenvectors were computed before: final state differs from expm-reference (max abs err {err:.3e})",
+                     {"mechanism": "matrix_exp", "dt": dt, "steps": m, "matrix": [[[float(z.real), float(z.imag)] for z in r] for r in M], "max_abs_err": err})
+    # dense adiabatic evolution with a Y mixer, default initial state (ground state of h0 => its spectrum is cached)
+    for k in range(3 if run.tier == "quick" else 12):
+        n = rng.choice([1, 2])
+        H0 = np.array(hamiltonians.SymbolicHamiltonian(sum(Y(q) for q in range(n)) + (0.5 * X(0)), nqubits=n).matrix)
+        H1 = rand_hermitian(rng, n, k % 2 == 0)
+        h0, h1 = hamiltonians.Hamiltonian(n, H0), hamiltonians.Hamiltonian(n, H1)
+        dt, T = 0.25, rng.choice([1.0, 2.0])
+        ev = models.AdiabaticEvolution(h0, h1, lambda x: x, dt=dt)
+        out = np.asarray(ev(final_time=T))
+        psi = np.asarray(hamiltonians.Hamiltonian(n, H0).ground_state()).copy()
+        # same gauge as the implementation's ground state: compare up to the phase by using the implementation's own vector
+        psi = np.asarray(h0.ground_state()).copy()
+        for j in range(int(round(T / dt))):
+            s_ = (j * dt) / T
+            psi = scipy.linalg.expm(-1j * dt * ((1 - s_) * H0 + s_ * H1)) @ psi
+        err = float(np.abs(out - psi).max())
+        worst[("adiabatic", "Y mixer")] = max(worst.get(("adiabatic", "Y mixer"), 0.0), err)
+        run.case(["adiabatic_dense_Y", k, n, T], nontrivial=True)
+        if err > 1e-9:
+            run.find(f"adiabatic_exp_after_ground_state:n={n}:T={T}",
+                     f"dense AdiabaticEvolution with a Y mixer and the default initial state: final state differs from the step-by-step expm reference (max abs err {err:.3e})",
+                     {"mechanism": "matrix_exp", "dt": dt, "T": T, "h1": [[[float(z.real), float(z.imag)] for z in r] for r in H1], "max_abs_err": err})
+    run.notes.setdefault("tests", []).append({"test": "Hamiltonian.exp / exp-solver vs scipy expm, fresh object and after the spectrum was computed, real and complex Hermitian",
+                                              "max_errors": {f"{a}/{b}": v for (a, b), v in worst.items()}, "tolerance": 1e-10})
+
+
 # ------------------------------------------------------------------ histories: one object, several executions
 def qq(x):
     f = Fraction(x)          # exact value of the float
@@ -996,6 +1203,8 @@ def main(run):
     run_rk(run, rng)
     run_rk_timedep(run, rng)
     run_histories(run, rng)
+    run_circuit_histories(run, rng)
+    run_exp_histories(run, rng)
     run_norm(run, rng)
     run_exp_solver(run, rng)
     run.notes["historical"] = ("coq/theories/C16/History.v holds lemmas about the pre-repair code (nsteps truncation, RK stages "
@@ -1042,6 +1251,12 @@ def replay(run, data):
         if "steps_expected" in rp and n != rp["steps_expected"]:
             run.find(key, data.get("what", "step count"), {**rp, "steps_now": n, **replay_missing_step(rp["t0"], rp["T"], rp["dt"], rp["steps_expected"])})
         return run.finish(level="proof", rule="replay of one recorded case")
+    if key.startswith("circuit_history"):
+        run_circuit_histories(run, random.Random(run.seed))
+        return run.finish(level="proof", rule="replay of the circuit-history generator (same seed)")
+    if key.startswith("matrix_exp") or key.startswith("exp_evolution_after_spectrum") or key.startswith("adiabatic_exp_after"):
+        run_exp_histories(run, random.Random(run.seed))
+        return run.finish(level="proof", rule="replay of the exp-history generator (same seed)")
     if key.startswith("norm:") or key.startswith("execute_trace:"):
         run_norm(run, random.Random(run.seed))
         return run.finish(level="proof", rule="replay of the norm / execute-trace configurations (same seed)")
